@@ -11,7 +11,7 @@ from vcommon import *
 PROP = "C12"
 HERE = os.path.dirname(os.path.abspath(__file__))
 TZS = ["UTC", "Asia/Tokyo", "America/Los_Angeles", "Pacific/Kiritimati", "XYZ-14", "ABC+11:30", "Europe/London"]
-KNOBS = ["clock", "tz", "mtime", "heap", "pid", "tmpname", "stack", "envvars", "cwd", "fds", "perm", "ids", "stdin"]
+KNOBS = ["clock", "tz", "mtime", "heap", "pid", "tmpname", "stack", "envvars", "cwd", "fds", "perm", "ids", "stdin", "links"]
 TIMEOUT = 10
 TIME_MACROS = re.compile(r"__DATE__|__TIME__|__TIMESTAMP__")
 
@@ -73,6 +73,7 @@ def gen_env(r):
             "tmpname": "".join(r.pick("abcdefghijklmnopqrstuvwxyzABCDEFGHIJKLMNOPQRSTUVWXYZ0123456789") for _ in range(6)),
             "stack": r.pick([r.range(0, 4000), r.range(0, 120000), r.range(60000, 250000)]),   # bytes of environment: moves the stack by up to 250 KB
             "stdin": [r.pick(["pipe", "file", "file"]), r.pick([0, 0, 1, 17, 4096, 70000])],
+            "links": r.below(3),   # how a header that duplicates another one exists: a copy, a hard link, a symbolic link
             "cwd": "cw" + "".join(r.pick("abcdefghij_") for _ in range(r.pick([1, 3, 8, 40, 120]))),
             "fds": r.pick([0, 0, 1, 3, 17]),
             "perm": [r.pick([0o644, 0o444, 0o755, 0o600]), r.below(2)],
@@ -277,6 +278,109 @@ def gen_decl_file(r):
     return "\n".join(out) + "\nint main(void) { return 0; }\n"
 
 
+def gen_proj(r):
+    """a translation unit with headers of its own: protected by #pragma once, by a guard, or not at all; included several
+    times under several spellings; some headers are byte-identical twins whose link structure the environment decides.
+    Every expansion of a header consumes one __COUNTER__ value, so the number of expansions reaches the output."""
+    nh = r.range(2, 4)
+    texts = []
+    for i in range(nh):
+        prot = r.pick(["once", "once", "guard", "none"])
+        body = "enum { PCAT(hc_, __COUNTER__) = %d };\nextern int hv;\n" % (i + 1)
+        if prot == "once":
+            t = "#pragma once\n" + body
+        elif prot == "guard":
+            t = "#ifndef PG_%d\n#define PG_%d\n%s#endif\n" % (i, i, body)
+        else:
+            t = body
+        texts.append(t)
+    aux = []
+    for i in range(nh):
+        alias = None
+        if i > 0 and r.below(2):
+            alias = "ph%d.h" % r.below(i)
+            while True:     # an alias of an alias is an alias of the original
+                a = next(x for x in aux if x[0] == alias)
+                if a[2] is None:
+                    break
+                alias = a[2]
+            texts[i] = next(x for x in aux if x[0] == alias)[1]
+        aux.append(["ph%d.h" % i, texts[i], alias])
+    aux.append(["psub/keep.h", "extern int hk;\n", None])
+    main = ["#define PCAT_(a, b) a##b", "#define PCAT(a, b) PCAT_(a, b)"]
+    for _ in range(r.range(3, 8)):
+        h = "ph%d.h" % r.below(nh)
+        main.append(r.pick(['#include "%s"', '#include "%s"', '#include "./%s"', '#include <%s>', '#include "psub/../%s"']) % h)
+    main.append("int counter_after = __COUNTER__;")
+    main.append("int main(void) { return counter_after; }")
+    return "\n".join(main) + "\n", aux
+
+
+TE_DECLS = """struct S { int m; int bf : 3; } s, *ps;
+union U { int m; float f; } u;
+enum E { EA, EB } e;
+void fv(void); int fi(int); double fd(void); struct S fs(void); void *fvp(void);
+int *p; void *vp; int a[3]; char str[4]; int (*fp)(int); const int ci = 3;
+_Bool b; char c; unsigned char uc; short sh; int i; unsigned u32; long l; unsigned long ul; float f; double d; long double ld;
+"""
+TE_OPND = ["fv()", "fv()", "fi(1)", "fd()", "fs()", "fvp()", "s", "*ps", "u", "e", "EA", "p", "vp", "a", "str", "fp", "fi", "fv", "b", "c", "uc", "sh", "i", "u32", "l", "ul",
+           "f", "d", "ld", "s.bf", "s.m", "ps->m", "u.f", "0", "1", "-1", "1.5", "2.5f", "3.5L", "\"lit\"", "(void)0", "(void)i", "&s", "&a", "a[1]", "*p", "*vp", "ci", "(char)1", "1u", "1ul",
+           "(struct S){1}", "sizeof(int)", "'c'", "L'w'"]
+TE_TYPES = ["void", "int", "struct S", "double", "int *", "_Bool", "long double", "enum E", "union U", "char", "unsigned long", "float", "void *", "int[3]", "int (*)(int)", "short"]
+TE_BIN = ["+", "-", "*", "/", "%", "<<", ">>", "<", ">", "<=", ">=", "==", "!=", "&", "|", "^", "&&", "||", ",", "=", "+=", "-=", "*=", "/=", "%=", "<<=", ">>=", "&=", "|=", "^="]
+
+
+def gen_typeexpr_file(r):
+    """operands of every type category (void calls, structs, unions, pointers, functions, arrays, bit-fields, floats ...) under
+    every operator, in value, condition, initializer and constant-expression positions: mostly type errors. Which one is
+    diagnosed, how, and what is emitted for the accepted ones must not depend on who compiled the compiler."""
+    def expr(depth):
+        k = r.below(16)
+        A = lambda: expr(depth - 1) if depth > 0 and r.below(4) == 0 else r.pick(TE_OPND)
+        if k < 6:
+            return "%s %s %s" % (A(), r.pick(TE_BIN), A())
+        if k == 6:
+            return "%s(%s)" % (r.pick(["-", "!", "~", "*", "&", "++", "--", "+", "sizeof", "_Alignof"]), A())
+        if k == 7:
+            return "(%s)%s" % (A(), r.pick(["++", "--", ".m", "->m", ".bf", "[1]", "(1)", "()"]))
+        if k == 8:
+            return "(%s)(%s)" % (r.pick(TE_TYPES), A())
+        if k == 9:
+            return "%s ? %s : %s" % (A(), A(), A())
+        if k == 10:
+            return "(%s)[%s]" % (A(), A())
+        if k == 11:
+            return "__builtin_reg_class(%s)" % r.pick(TE_TYPES)
+        if k == 12:
+            return "__builtin_types_compatible_p(%s, %s)" % (r.pick(TE_TYPES), r.pick(TE_TYPES + ["__typeof__(%s)" % r.pick(TE_OPND)]))
+        if k == 13:
+            return "_Generic(%s, int: 1, double: 2, void *: 3, default: 4)" % A()
+        if k == 14:
+            return "fi(%s)" % A()
+        return "sizeof(%s) + _Alignof(%s)" % (r.pick(TE_TYPES), r.pick(TE_TYPES))
+    out = [TE_DECLS]
+    for n in range(r.pick([1, 1, 2, 3])):
+        e = expr(1)
+        k = r.below(8)
+        if k == 0:
+            out.append("long g%d = %s;" % (n, e))
+        elif k == 1:
+            out.append("void t%d(void) { if (%s) i = 1; }" % (n, e))
+        elif k == 2:
+            out.append("void t%d(void) { while (%s) break; }" % (n, e))
+        elif k == 3:
+            out.append("int t%d(void) { return %s; }" % (n, e))
+        elif k == 4:
+            out.append("void t%d(void) { switch (%s) { case 1: break; } }" % (n, e))
+        elif k == 5:
+            out.append("char arr%d[%s];" % (n, e))
+        elif k == 6:
+            out.append("void t%d(void) { %s v = %s; }" % (n, r.pick(TE_TYPES[1:9]).replace("int[3]", "int"), e))
+        else:
+            out.append("void t%d(void) { (void)(%s); %s; }" % (n, e, expr(0)))
+    return "\n".join(out) + "\nint main(void) { return 0; }\n"
+
+
 def list_inputs(src):
     own = [os.path.join(src, f) for f in sorted(os.listdir(src)) if f.endswith(".c")]
     tests = [os.path.join(src, "test", f) for f in sorted(os.listdir(os.path.join(src, "test"))) if f.endswith(".c")]
@@ -294,9 +398,16 @@ OPTION_SETS = [["-xc-stdin", "-S"], ["-xc-stdin", "-E"], ["-xc-stdin", "-c"], ["
 
 def gen_case(seed, src, own, tests, avail=None):
     r = Rng(seed)
-    x = r.below(30)
+    x = r.below(34)
     gen_text = None
-    if x >= 27:
+    aux = None
+    if x >= 32:
+        path, mutated = tests[0], False
+        gen_text, aux = gen_proj(r)
+    elif x >= 30:
+        path, mutated = tests[0], False
+        gen_text = gen_typeexpr_file(r)
+    elif x >= 27:
         path, mutated = tests[0], False
         gen_text = gen_decl_file(r)
     elif x >= 25:
@@ -330,6 +441,8 @@ def gen_case(seed, src, own, tests, avail=None):
     if gen_text is not None:
         case["input"] = "test/generated_constexpr.c"
         case["text"] = gen_text
+    if aux:
+        case["aux"] = aux
     return case
 
 
@@ -349,10 +462,35 @@ def materialise(case, src, wdir):
     q = os.path.join(d, os.path.basename(case["input"]))
     with open(q, "w") as f:
         f.write(text)
+    for name, atext, alias in case.get("aux") or []:
+        ap = os.path.join(d, name)
+        os.makedirs(os.path.dirname(ap), exist_ok=True)
+        if os.path.lexists(ap):
+            os.unlink(ap)
+        with open(ap, "w") as f:
+            f.write(atext)
     return q, text
 
 
-def run_replica(sdir, reps, stage, e, infile, opts, src, wdir, stats, timeout=None):
+def _big_stack():
+    import resource
+    resource.setrlimit(resource.RLIMIT_STACK, (4 << 30, resource.RLIM_INFINITY))
+
+
+def run_replica(sdir, reps, stage, e, infile, opts, src, wdir, stats, timeout=None, aux=None, bigstack=False):
+    for name, atext, alias in aux or []:
+        if alias:
+            ap, tp = os.path.join(os.path.dirname(infile), name), os.path.join(os.path.dirname(infile), alias)
+            if os.path.lexists(ap):
+                os.unlink(ap)
+            how = e.get("links", 0)
+            if how == 1:
+                os.link(tp, ap)
+            elif how == 2:
+                os.symlink(alias, ap)
+            else:
+                with open(ap, "w") as f:
+                    f.write(atext)
     out = os.path.join(wdir, "out.bin")
     dep = os.path.join(wdir, "out.d")
     for f in (out, dep):
@@ -407,7 +545,7 @@ def run_replica(sdir, reps, stage, e, infile, opts, src, wdir, stats, timeout=No
             stdin_arg = os.open(sf, os.O_RDONLY)
             os.lseek(stdin_arg, off, os.SEEK_SET)
     po = subprocess.Popen(argv, cwd=wdir, env=env_vars(e, sdir, stats), stdin=stdin_arg, stdout=subprocess.PIPE, stderr=subprocess.PIPE,
-                          start_new_session=True, pass_fds=extra_fds)
+                          start_new_session=True, pass_fds=extra_fds, preexec_fn=_big_stack if bigstack else None)
     if isinstance(stdin_arg, int) and stdin_arg >= 0 and from_stdin:
         os.close(stdin_arg)
     for fd in extra_fds:
@@ -451,22 +589,40 @@ def equalise_time(case, text):
     return False
 
 
+stats_counter = {}
+
+
 def evaluate(case, sdir, reps, src, wdir, stats=None):
     infile, text = materialise(case, src, wdir)
     held = equalise_time(case, text)
-    ra = run_replica(sdir, reps, case["a"], case["e1"], infile, case["opts"], src, wdir, stats)
-    rb = run_replica(sdir, reps, case["b"], case["e2"], infile, case["opts"], src, wdir, stats)
+    ra = run_replica(sdir, reps, case["a"], case["e1"], infile, case["opts"], src, wdir, stats, aux=case.get("aux"))
+    rb = run_replica(sdir, reps, case["b"], case["e2"], infile, case["opts"], src, wdir, stats, aux=case.get("aux"))
     if ra["status"] == "timeout" or rb["status"] == "timeout":
         if ra["status"] == rb["status"]:
             return None, ra, rb, held, text     # both hang the same way: an input problem, not a divergence
         # one-sided: a loaded machine, or a real divergence (one replica loops)? decide with six times the budget
-        ra = run_replica(sdir, reps, case["a"], case["e1"], infile, case["opts"], src, wdir, None, timeout=6 * TIMEOUT)
-        rb = run_replica(sdir, reps, case["b"], case["e2"], infile, case["opts"], src, wdir, None, timeout=6 * TIMEOUT)
+        ra = run_replica(sdir, reps, case["a"], case["e1"], infile, case["opts"], src, wdir, None, timeout=6 * TIMEOUT, aux=case.get("aux"))
+        rb = run_replica(sdir, reps, case["b"], case["e2"], infile, case["opts"], src, wdir, None, timeout=6 * TIMEOUT, aux=case.get("aux"))
         if ra["status"] == "timeout" and rb["status"] == "timeout":
             return None, ra, rb, held, text
         if ra["status"] == "timeout" or rb["status"] == "timeout":
             return ["status"], ra, rb, held, text
     d = diff_fields(ra, rb)
+    if d and any(x["status"] == 1 and not x["stderr"] and x["out"] is None for x in (ra, rb)):
+        # one side died without a word (the driver reports a crashed cc1 by its exit status only). The front end recurses
+        # over its input, and the self-compiled compiler has bigger frames than the gcc-compiled one, so a pathological
+        # input (a left-deep tree of 32768 initializer elements, say) can exhaust the 8 MiB default stack of one replica
+        # and not of the other. How much stack a process has is a resource limit, not something the property quantifies
+        # over: the comparison is decided again with 4 GiB of stack for both, and only a difference that survives is one.
+        ra2 = run_replica(sdir, reps, case["a"], case["e1"], infile, case["opts"], src, wdir, None, timeout=6 * TIMEOUT, aux=case.get("aux"), bigstack=True)
+        rb2 = run_replica(sdir, reps, case["b"], case["e2"], infile, case["opts"], src, wdir, None, timeout=6 * TIMEOUT, aux=case.get("aux"), bigstack=True)
+        if "timeout" not in (ra2["status"], rb2["status"]):
+            d2 = diff_fields(ra2, rb2)
+            if not d2:
+                if stats_counter is not None:
+                    stats_counter["stack_limit_redecided"] = stats_counter.get("stack_limit_redecided", 0) + 1
+                return [], ra2, rb2, held, text
+            return d2, ra2, rb2, held, text
     return d, ra, rb, held, text
 
 
@@ -487,9 +643,9 @@ def minimise(case, sdir, reps, src, wdir, fields):
         if still(c):
             best = c
     for k in KNOBS:
-        if best["e1"][k] != best["e2"][k]:
+        if best["e1"].get(k) != best["e2"].get(k):
             c = json.loads(json.dumps(best))
-            c["e2"][k] = c["e1"][k]
+            c["e2"][k] = c["e1"].get(k)
             if still(c):
                 best = c
     # line-level ddmin of the input
@@ -510,7 +666,7 @@ def minimise(case, sdir, reps, src, wdir, fields):
                 i += chunk
         if not progress:
             chunk //= 2
-    differing = [k for k in KNOBS if best["e1"][k] != best["e2"][k]]
+    differing = [k for k in KNOBS if best["e1"].get(k) != best["e2"].get(k)]
     return best, differing, n[0]
 
 
@@ -523,7 +679,8 @@ def worker(args):
     own, tests = list_inputs(src)
     t_end = time.monotonic() + seconds
     out = {"runs": 0, "viol": [], "hashes": set(), "nontrivial": 0, "diagnosed": 0, "crashed": 0, "ok": 0, "samples": [], "sub": {"same_replica_diff_env": 0, "diff_replica_same_env": 0, "diff_both": 0},
-           "knob_diffs": dict((k, 0) for k in KNOBS), "held_time": 0, "shim": {}, "by_opt": {}, "mutated": 0, "timeouts": 0, "errors": []}
+           "knob_diffs": dict((k, 0) for k in KNOBS), "held_time": 0, "shim": {}, "by_opt": {}, "mutated": 0, "timeouts": 0, "stack_redecided": 0, "errors": []}
+    stats_counter.clear()
     k = start
     while time.monotonic() < t_end:
         seed = mix(master, k)
@@ -537,6 +694,7 @@ def worker(args):
             out["errors"].append("seed %d: %r" % (seed, e))
             continue
         out["runs"] += 1
+        out["stack_redecided"] = stats_counter.get("stack_limit_redecided", 0)
         if d is None:
             out["timeouts"] += 1
             continue
@@ -701,7 +859,7 @@ def main(argv):
     for d in det:
         for t in d[2][:3]:
             rep.harness_error("case did not repeat exactly: " + t)
-    agg = {"runs": 0, "nontrivial": 0, "diagnosed": 0, "crashed": 0, "ok": 0, "held_time": 0, "mutated": 0, "timeouts": 0}
+    agg = {"runs": 0, "nontrivial": 0, "diagnosed": 0, "crashed": 0, "ok": 0, "held_time": 0, "mutated": 0, "timeouts": 0, "stack_redecided": 0}
     sub, knob, shim, by_opt = {}, {}, {}, {}
     hashes, samples = set(), []
     for r in results:
@@ -747,7 +905,8 @@ def main(argv):
         "simulated_time": "clock epochs drawn from 1970-01-01 to 2105 (0..4.26e9 s), per-read advance 0 s..463 days, 7 time zones, file times 1970..2096",
         "fixpoint": "all 9 sources compiled with -S by stage 1, 2 and 3 (each under its own environment): pairwise identical" if not any("fixpoint" in i for i, _, _ in rep.new) else "differs",
         "sub_cases": sub,
-        "inputs": {"accepted": agg["ok"], "diagnosed": agg["diagnosed"], "front_end_crashed_identically": agg["crashed"], "mutants": agg["mutated"], "both_timed_out": agg["timeouts"]},
+        "inputs": {"accepted": agg["ok"], "diagnosed": agg["diagnosed"], "front_end_crashed_identically": agg["crashed"], "mutants": agg["mutated"], "both_timed_out": agg["timeouts"],
+                   "one_side_died_silently_and_both_agree_with_4GiB_of_stack": agg["stack_redecided"]},
         "fault_kinds_fired": {"environment_knob_differed_between_the_two_runs": knob, "time_held_equal_because_input_mentions_date_macros": agg["held_time"],
                               "shim_counters(all runs)": shim},
         "by_first_option": by_opt,
